@@ -252,3 +252,21 @@ Example C06_explore_k2_repaired :
 Proof. repeat split; vm_compute; reflexivity. Qed.
 
 Definition C06_structure := (error_filter_shape, stream_samples_context_after_parseEvents).
+
+(* ---------------------------------------------------------------------------------------------------------------
+   Source pins.  The model functions used above are a hand-written reading of these Go functions (they have closures,
+   channels, interfaces or maps, which the translator gotrans does not accept).  gosync regenerates their normalised
+   text (logging calls and comments removed) into gen/Source.v on every run; it must equal the committed snapshot
+   Spec/SourceSnapshot.v the models were written and validated against.  When one of them is edited the Example
+   naming it fails, the check runs the thorough harness in search of a failing input, and reports the property as no
+   longer shown to hold (with the input, or no-failing-input-found). *)
+From GB Require Proofs.SourcePins Spec.SourceSnapshot.
+From GBGen Require Source.
+Example C06_pin_Stream : Source.src_Stream = SourceSnapshot.src_Stream.
+Proof. exact SourcePins.pin_Stream. Qed.
+Example C06_pin_Error : Source.src_Error = SourceSnapshot.src_Error.
+Proof. exact SourcePins.pin_Error. Qed.
+Example C06_pin_startDumpFromBinlogPosition : Source.src_startDumpFromBinlogPosition = SourceSnapshot.src_startDumpFromBinlogPosition.
+Proof. exact SourcePins.pin_startDumpFromBinlogPosition. Qed.
+Example C06_pin_readBinlogEvent : Source.src_readBinlogEvent = SourceSnapshot.src_readBinlogEvent.
+Proof. exact SourcePins.pin_readBinlogEvent. Qed.
